@@ -311,10 +311,10 @@ package lower
 //@ func (*Lowerer).evalScalarArithmetic
 //@   mode bv
 //@   tags C06
-//@   ensures [float-add] op == parser.TokenPlus && left.Kind == ir.ScalarFloat && right.Kind == ir.ScalarFloat ==> result <= 0xffffffff && same(f32frombits(uint32(result)), float32(svf(left) + svf(right)))
-//@   ensures [float-mul] op == parser.TokenStar && left.Kind == ir.ScalarFloat && right.Kind == ir.ScalarFloat ==> result <= 0xffffffff && same(f32frombits(uint32(result)), float32(svf(left) * svf(right)))
-//@   ensures [promote-right-signed] op == parser.TokenPlus && left.Kind == ir.ScalarFloat && right.Kind == ir.ScalarSint ==> same(f32frombits(uint32(result)), float32(svf(left) + float64(float32(int64(right.Bits)))))
-//@   ensures [promote-left-signed] op == parser.TokenPlus && right.Kind == ir.ScalarFloat && left.Kind == ir.ScalarSint ==> same(f32frombits(uint32(result)), float32(float64(float32(int64(left.Bits))) + svf(right)))
+//@   ensures! [float-add] op == parser.TokenPlus && left.Kind == ir.ScalarFloat && right.Kind == ir.ScalarFloat ==> result <= 0xffffffff && same(f32frombits(uint32(result)), float32(svf(left) + svf(right)))
+//@   ensures! [float-mul] op == parser.TokenStar && left.Kind == ir.ScalarFloat && right.Kind == ir.ScalarFloat ==> result <= 0xffffffff && same(f32frombits(uint32(result)), float32(svf(left) * svf(right)))
+//@   ensures! [promote-right-signed] op == parser.TokenPlus && left.Kind == ir.ScalarFloat && right.Kind == ir.ScalarSint ==> same(f32frombits(uint32(result)), float32(svf(left) + float64(float32(int64(right.Bits)))))
+//@   ensures! [promote-left-signed] op == parser.TokenPlus && right.Kind == ir.ScalarFloat && left.Kind == ir.ScalarSint ==> same(f32frombits(uint32(result)), float32(float64(float32(int64(left.Bits))) + svf(right)))
 //@   ensures [int-add] op == parser.TokenPlus && left.Kind == ir.ScalarSint && right.Kind == ir.ScalarSint ==> result == left.Bits + right.Bits
 //@   ensures [int-mul] op == parser.TokenStar && left.Kind == ir.ScalarSint && right.Kind == ir.ScalarSint ==> result == left.Bits * right.Bits
 //@   ensures [sint-div] op == parser.TokenSlash && left.Kind == ir.ScalarSint && right.Kind == ir.ScalarSint && right.Bits != 0 && !(int64(left.Bits) == -9223372036854775808 && int64(right.Bits) == -1) ==> int64(result) == int64(left.Bits) / int64(right.Bits)
